@@ -681,6 +681,7 @@ def c03_flags(case, outcome=None):
     for b in _batches(case):
         ren, ini, drops, rebuild, colchg, metas = {}, {}, {}, set(), set(), set()
         multi_meta = {}
+        merging_rebuild = set()
         for i in b:
             m = seq[i]
             u = uids[i]
@@ -696,6 +697,8 @@ def c03_flags(case, outcome=None):
                 multi_meta[key] = multi_meta.get(key, 0) + 1
             if _is_rebuilding(m):
                 rebuild.add(u)
+            if _is_rebuilding(m) and m['kind'] in ('AddField', 'ChangeField'):
+                merging_rebuild.add(u)
             if m['kind'] == 'ChangeField' and 'db_column' in m['attrs']:
                 colchg.add(u)
             if m['kind'] == 'RenameField':
@@ -709,7 +712,9 @@ def c03_flags(case, outcome=None):
             if n >= 2:
                 flag(u, 'multi_initial')
         for u in drops:
-            if u in rebuild:
+            # only add_column / change_column operations share a rebuild with their
+            # neighbours on this tree (delete_column / change_meta do not: F-C18-1)
+            if u in merging_rebuild:
                 flag(u, 'dbindex_rebuild')
         for u in colchg & metas:
             flag(u, 'dbcolumn_meta')
@@ -725,6 +730,23 @@ def c03_flags(case, outcome=None):
                 added_cols[(uids[i], m['field']['name'])] = True
             if m['kind'] == 'RenameField' and (uids[i], m['old']) in added_cols:
                 flag(uids[i], 'add_rename_dbcolumn')
+    # a field name is vacated and (re)occupied inside a batch that also deletes a field
+    for b in _batches(case):
+        per = {}
+        for i in b:
+            m = seq[i]
+            d = per.setdefault(uids[i], {'vac': set(), 'occ': set(), 'del': False})
+            if m['kind'] == 'DeleteField':
+                d['vac'].add(m['name'])
+                d['del'] = True
+            elif m['kind'] == 'RenameField':
+                d['vac'].add(m['old'])
+                d['occ'].add(m['new'])
+            elif m['kind'] == 'AddField':
+                d['occ'].add(m['field']['name'])
+        for u, d in per.items():
+            if d['del'] and d['vac'] & d['occ']:
+                flag(u, 'delete_name_reuse')
     # several ChangeFields of one field in the whole case (folding also looks across
     # barriers through the stale signature), or a ChangeField of a field added in the case
     per_field = {}
@@ -923,3 +945,13 @@ def mergeable_ops_missing_comma(case, outcome, atoms):
     if not any(m['kind'] in ('DeleteField', 'ChangeMeta') for m in case['seq']):
         return atoms
     return [a for a in atoms if a[0] != 'run_not_single_rewrite']
+
+
+@explainer
+def field_name_reuse_with_delete(case, outcome, atoms):
+    """A batch that deletes a field and in which some field name is both vacated
+    (DeleteField / RenameField away) and occupied again (AddField / RenameField
+    onto it): the optimiser's bookkeeping is keyed by (model, field name), so the
+    DeleteField removes mutations of the *other* holder of the name (or the
+    wrong field is deleted, or the batch is rejected)."""
+    return _explain_by_flag('delete_name_reuse', case, outcome, atoms)
